@@ -91,3 +91,35 @@ func replayLatency(rf *vstat.ReplayFile) string {
 	}
 	return ""
 }
+
+// TestC15LatencyIrregular: the bound under off-schedule and late refreshes.
+func TestC15LatencyIrregular(t *testing.T) {
+	if !vstat.Enabled("C15") {
+		t.Skip()
+	}
+	rec := vstat.New("C15", "latency-irregular")
+	rec.RunRapid(t, func(rt *rapid.T) {
+		sc := genLatIrregular(rt)
+		rec.Current(sc)
+		st, err := runLatIrregular(sc)
+		rec.Case(sc, st.nontrivial(), st.labels()...)
+		if err != nil {
+			class := "oracle"
+			if f, ok := err.(*latFailure); ok {
+				class = f.class
+			}
+			rt.Fatalf("%s", rec.Fail(sc, class, "%v", err))
+		}
+	})
+}
+
+func replayLatIrregular(rf *vstat.ReplayFile) string {
+	var sc LatIrregular
+	if err := json.Unmarshal(rf.Scenario, &sc); err != nil {
+		return "bad scenario: " + err.Error()
+	}
+	if _, err := runLatIrregular(&sc); err != nil {
+		return err.Error()
+	}
+	return ""
+}
